@@ -286,6 +286,56 @@ pub const fn sample_rate_to_capacity(sample_rate_hz: u32) -> usize {
     num_main_samples_to_care_about + num_to_discard_at_end + 1
 }
 
+/// Internal state of a ribbon controller, for the verification harness (state identity only)
+#[cfg(feature = "verif-hooks")]
+#[derive(Debug, Clone, PartialEq)]
+pub struct VerifSnapshot<const BUFFER_CAPACITY: usize> {
+    pub finger_press_high_boundary: f32,
+    pub current_val: f32,
+    pub finger_is_pressing: bool,
+    pub finger_just_pressed: bool,
+    pub finger_just_released: bool,
+    pub num_to_ignore_up_front: usize,
+    pub num_to_discard_at_end: usize,
+    pub num_samples_received: usize,
+    pub num_samples_written: usize,
+    /// number of valid entries in the two arrays below
+    pub buff_len: usize,
+    /// buffer contents in storage order
+    pub buff_raw: [f32; BUFFER_CAPACITY],
+    /// buffer contents oldest first
+    pub buff_oldest_first: [f32; BUFFER_CAPACITY],
+}
+
+#[cfg(feature = "verif-hooks")]
+impl<const BUFFER_CAPACITY: usize> RibbonController<BUFFER_CAPACITY> {
+    /// A copy of the internal state, read without clearing the edge flags
+    pub fn verif_snapshot(&self) -> VerifSnapshot<BUFFER_CAPACITY> {
+        let mut buff_raw = [0.0_f32; BUFFER_CAPACITY];
+        let mut buff_oldest_first = [0.0_f32; BUFFER_CAPACITY];
+        for (d, s) in buff_raw.iter_mut().zip(self.buff.as_slice()) {
+            *d = *s;
+        }
+        for (d, s) in buff_oldest_first.iter_mut().zip(self.buff.oldest_ordered()) {
+            *d = *s;
+        }
+        VerifSnapshot {
+            finger_press_high_boundary: self.finger_press_high_boundary,
+            current_val: self.current_val,
+            finger_is_pressing: self.finger_is_pressing,
+            finger_just_pressed: self.finger_just_pressed,
+            finger_just_released: self.finger_just_released,
+            num_to_ignore_up_front: self.num_to_ignore_up_front,
+            num_to_discard_at_end: self.num_to_discard_at_end,
+            num_samples_received: self.num_samples_received,
+            num_samples_written: self.num_samples_written,
+            buff_len: self.buff.len(),
+            buff_raw,
+            buff_oldest_first,
+        }
+    }
+}
+
 #[cfg(test)]
 mod tests {
     use super::*;
